@@ -1090,6 +1090,11 @@ impl CollectionV3 {
     pub fn load_contig_batch(&mut self, archive: &mut Archive, id_batch: usize) -> Result<()> {
         // Use cumulative samples_loaded counter, NOT id_batch * batch_size
         // C++ AGC creates batches of ~50 samples, but batch_size defaults to 1M which is wrong
+        // Batch 0 always describes the first samples: (re)loading it restarts the pass over the
+        // batches, so a second "load all batches" does not append past the end of the sample table.
+        if id_batch == 0 {
+            self.samples_loaded = 0;
+        }
         let i_sample = self.samples_loaded;
 
         // Load contig names
